@@ -773,6 +773,7 @@ func doAPI(req *Req) (resp Resp) {
 	if resp.Kind != "ok" {
 		return
 	}
+	var twin r.Element // the copy made by the last "dup" step; "twin" steps swap it with the receiver
 	for _, st := range req.Steps {
 		sr := StepRes{}
 		func() {
@@ -827,6 +828,14 @@ func doAPI(req *Req) (resp Resp) {
 				out = value.NewString(recv.String())
 			case "dup":
 				out = value.DuplicateValue(recv)
+				twin = out
+			case "twin":
+				// go on with the copy; the former receiver becomes the copy (so that histories
+				// alternate between a value and its copy, as two variables of a program would)
+				if twin != nil {
+					recv, twin = twin, recv
+				}
+				out = recv
 			case "cmp":
 				var b bool
 				var a r.Element = value.NewNull()
